@@ -65,7 +65,11 @@ impl Operator {
                     x.partial_cmp(y)
                 }
                 (Value::Literal(x), Value::Literal(y)) => x.partial_cmp(y),
-                _ => return Ok(None),
+                // May be a part of a css expression, e.g. a media query.
+                (a, b) if css_operand(a) || css_operand(b) => {
+                    return Ok(None);
+                }
+                _ => return Err(BadOp::UndefinedOperation),
             };
             Ok(Some(order.is_some_and(op).into()))
         }
@@ -222,6 +226,14 @@ fn valid_operand(v: &Value) -> bool {
         | Value::BinOp(_)
         | Value::Literal(_) => true,
         Value::Paren(v) => valid_operand(v),
+        _ => false,
+    }
+}
+
+fn css_operand(v: &Value) -> bool {
+    match v {
+        Value::Call(..) | Value::BinOp(_) | Value::Literal(_) => true,
+        Value::Paren(v) => css_operand(v),
         _ => false,
     }
 }
